@@ -130,6 +130,76 @@ fn run(a: &[&str]) -> String {
                 Err(e) => format!("ERR\t{:?}\t{:o}", e, vfs.mode(p).unwrap()),
             }
         },
+        // fs <script-hex> : run a history on a fresh Memfs; script = ops separated by ';', fields by ' ' (paths plain, data hex, modes octal).
+        // Prints every result (OK / ERR kind) and the final observable tree (kind, mode, owner, content, link target per path).
+        "fs" => {
+            let script = s(a[1]);
+            let vfs = Memfs::new();
+            let mut out: Vec<String> = vec![];
+            let kind = |e: &RvError| -> String { let t = format!("{:?}", e); t.split(|c: char| c == '(' || c == ' ' || c == '{').take(2).collect::<Vec<_>>().join("/") };
+            for op in script.split(';') {
+                let f: Vec<&str> = op.split(' ').filter(|x| !x.is_empty()).collect();
+                if f.is_empty() { continue; }
+                let m = |i: usize| u32::from_str_radix(f[i], 8).unwrap();
+                let r: Result<String, RvError> = match f[0] {
+                    "mkdir_p" => vfs.mkdir_p(f[1]).map(|_| "".into()),
+                    "mkdir_m" => vfs.mkdir_m(f[1], m(2)).map(|_| "".into()),
+                    "mkfile" => vfs.mkfile(f[1]).map(|_| "".into()),
+                    "write_all" => vfs.write_all(f[1], &unhex(f.get(2).unwrap_or(&""))).map(|_| "".into()),
+                    "append_all" => vfs.append_all(f[1], &unhex(f.get(2).unwrap_or(&""))).map(|_| "".into()),
+                    "symlink" => vfs.symlink(f[1], f[2]).map(|_| "".into()),
+                    "remove" => vfs.remove(f[1]).map(|_| "".into()),
+                    "remove_all" => vfs.remove_all(f[1]).map(|_| "".into()),
+                    "copy" => vfs.copy(f[1], f[2]).map(|_| "".into()),
+                    "copy_follow" => vfs.copy_b(f[1], f[2]).and_then(|b| b.follow(true).exec()).map(|_| "".into()),
+                    "copy_mode" => vfs.copy_b(f[1], f[2]).and_then(|b| b.chmod_all(m(3)).exec()).map(|_| "".into()),
+                    "copy_dirs" => vfs.copy_b(f[1], f[2]).and_then(|b| b.chmod_dirs(m(3)).exec()).map(|_| "".into()),
+                    "copy_files" => vfs.copy_b(f[1], f[2]).and_then(|b| b.chmod_files(m(3)).exec()).map(|_| "".into()),
+                    "move_p" => vfs.move_p(f[1], f[2]).map(|_| "".into()),
+                    "set_cwd" => vfs.set_cwd(f[1]).map(|_| "".into()),
+                    "chmod" => vfs.chmod(f[1], m(2)).map(|_| "".into()),
+                    "chmod_files" => vfs.chmod_b(f[1]).and_then(|b| b.files(m(2)).exec()).map(|_| "".into()),
+                    "chmod_dirs" => vfs.chmod_b(f[1]).and_then(|b| b.dirs(m(2)).exec()).map(|_| "".into()),
+                    "chmod_sym" => vfs.chmod_b(f[1]).and_then(|b| b.sym(f[2]).exec()).map(|_| "".into()),
+                    "chmod_nr" => vfs.chmod_b(f[1]).and_then(|b| b.all(m(2)).no_recurse().exec()).map(|_| "".into()),
+                    "chown" => vfs.chown(f[1], f[2].parse().unwrap(), f[3].parse().unwrap()).map(|_| "".into()),
+                    "chown_nr" => vfs.chown_b(f[1]).and_then(|b| b.owner(f[2].parse().unwrap(), f[3].parse().unwrap()).recurse(false).exec()).map(|_| "".into()),
+                    "read_all" => vfs.read_all(f[1]),
+                    "read_lines" => vfs.read_lines(f[1]).map(|v| v.join("|")),
+                    "readlink" => vfs.readlink(f[1]).map(|p| p.to_string_lossy().to_string()),
+                    "readlink_abs" => vfs.readlink_abs(f[1]).map(|p| p.to_string_lossy().to_string()),
+                    "abs" => vfs.abs(f[1]).map(|p| p.to_string_lossy().to_string()),
+                    "paths" => vfs.paths(f[1]).map(|v| v.iter().map(|p| p.to_string_lossy().to_string()).collect::<Vec<_>>().join("|")),
+                    "all_paths" => vfs.all_paths(f[1]).map(|v| v.iter().map(|p| p.to_string_lossy().to_string()).collect::<Vec<_>>().join("|")),
+                    "dirs" => vfs.dirs(f[1]).map(|v| v.iter().map(|p| p.to_string_lossy().to_string()).collect::<Vec<_>>().join("|")),
+                    "files" => vfs.files(f[1]).map(|v| v.iter().map(|p| p.to_string_lossy().to_string()).collect::<Vec<_>>().join("|")),
+                    "is_dir" => Ok(vfs.is_dir(f[1]).to_string()),
+                    "is_file" => Ok(vfs.is_file(f[1]).to_string()),
+                    "is_symlink" => Ok(vfs.is_symlink(f[1]).to_string()),
+                    "exists" => Ok(vfs.exists(f[1]).to_string()),
+                    _ => Ok("?".into()),
+                };
+                out.push(match r { Ok(v) => format!("{}=OK({})", f[0], v), Err(e) => format!("{}=ERR({})", f[0], kind(&e)) });
+            }
+            // final observable tree, through the public API only
+            let mut tree: Vec<String> = vec![];
+            let mut stack = vec![PathBuf::from("/")];
+            let mut seen = 0;
+            while let Some(p) = stack.pop() {
+                seen += 1;
+                if seen > 400 { tree.push("...".into()); break; }
+                let ps = p.to_string_lossy().to_string();
+                let k = if vfs.is_symlink(&p) { "l" } else if vfs.is_dir(&p) { "d" } else if vfs.is_file(&p) { "f" } else { "?" };
+                let mode = vfs.mode(&p).map(|m| format!("{:o}", m)).unwrap_or("-".into());
+                let own = vfs.owner(&p).map(|(u, g)| format!("{}:{}", u, g)).unwrap_or("-".into());
+                let extra = if k == "l" { vfs.readlink_abs(&p).map(|t| t.to_string_lossy().to_string()).unwrap_or("-".into()) } else if k == "f" { vfs.read_all(&p).map(|c| hex(c.as_bytes())).unwrap_or("!".into()) } else { "".into() };
+                tree.push(format!("{} {} {} {} {}", ps, k, mode, own, extra));
+                if k == "d" {
+                    if let Ok(mut kids) = vfs.paths(&p) { kids.sort(); kids.reverse(); for c in kids { stack.push(c); } }
+                }
+            }
+            format!("OK\t{}\tcwd={}\t{}", out.join(";"), vfs.cwd().map(|p| p.to_string_lossy().to_string()).unwrap_or("-".into()), tree.join("|"))
+        },
         _ => "UNKNOWN-OP".to_string(),
     }
 }
